@@ -8,7 +8,7 @@ OUT=$ROOT/.build/fuzzlong-$PKG-$T; mkdir -p $OUT
 cd $ROOT/harness
 before=$(ls $PKG/testdata/fuzz/$T 2>/dev/null | sort)
 VERIF_ROOT=$ROOT VERIF_TIER=thorough VERIF_SEED=1 VERIF_SHARD=0 VERIF_SHARDS=1 VERIF_STATS_DIR=$OUT VERIF_REPLAY=$OUT/replay.json VERIF_FUZZ=1 \
-  go test -tags verif -vet=off -run '^$' -fuzz "^$T\$" -fuzztime ${SECS}s -test.timeout $((SECS+600))s ./$PKG > $OUT/log.txt 2>&1
+  go test -tags verif -vet=off -run '^$' -fuzz "^$T\$" -fuzztime ${SECS}s -parallel ${FUZZ_PARALLEL:-8} -test.timeout $((SECS+600))s ./$PKG > $OUT/log.txt 2>&1
 rc=$?
 tail -3 $OUT/log.txt
 after=$(ls $PKG/testdata/fuzz/$T 2>/dev/null | sort)
